@@ -195,6 +195,7 @@ PROPS = {
             rapid("determinism", "TestC09Determinism", 600, 6000),
             rapid("cross-process", "TestC09CrossProcess", 12, 60, shards=dict(quick=1, thorough=16)),
             rapid("ranges", "TestC09Ranges", 5000, 50000),
+            rapid("ranges-at-volume", "TestC09Volume", 80, 600, shards=dict(quick=4, thorough=16)),
         ],
     ),
     "C10": dict(
